@@ -398,6 +398,9 @@ def check_C15(ctx):
     # the design statement: Sync is total (returns ok or err) on every snapshot of the modelled domains
     ctx.design("MCSnapshot", mc_snapshot_cfg(1, 2, 5, True, ["I_C15"]), "pods-1ord")
     sh1, _ = snap_trace(ctx, "admitted", "admitted", 2, 2, 5, 120000 if q else 2500000, ["P_C15"], 40)
+    # odd revision populations (status naming a revision that is gone or foreign, squatters, ties) must not crash it either
+    snap_trace(ctx, "history", "history", 2, 2, 5, 40000 if q else 600000, ["P_C15"], 41)
+    snap_trace(ctx, "own-revs", "own-revs", 2, 2, 5, 10000 if q else 0, ["P_C15"], 42)
     ctx.add_samples(sh1, 2, lambda r: r["sn"]["set"][5] not in ("RollingUpdate", "OnDelete"))
     ctx.add_samples(sh1, 1, lambda r: r["sn"]["set"][8] < 0)
     ctx.assumptions.append("the lattice is built from the shapes manifests/crd.v1.yaml admits (replicas and revisionHistoryLimit always "
